@@ -11,7 +11,79 @@ def pipe(ctx, verdict, cases, name="measure"):
     return obs
 
 
-PIPES = {"measure": pipe}
+def big_cases(seed, n):
+    """Rings with arbitrary float64 ordinates: far from the origin relative to their size, at magnitudes up to 2^200,
+    with products that are not representable; 1-3 rings per polygon, 1-2 polygons."""
+    import random
+    from props import exact_common as ec
+    r = random.Random(seed)
+    out = []
+    for k in range(n):
+        scale = 2.0 ** r.choice([-40, 0, 0, 20, 60, 150, 199])
+        far = r.choice([0.0, 1.0, 1e3, 1e6, 1e9]) * scale
+        polys = []
+        for _ in range(r.choice([1, 1, 2])):
+            rings = []
+            for _ in range(r.choice([1, 1, 2, 3])):
+                m = r.choice([3, 4, 5, 8, 20])
+                bx, by = far * r.uniform(0.5, 1.5), far * r.uniform(-1.5, 1.5)
+                pts = [[bx + r.uniform(0, 1) * scale, by + r.uniform(0, 1) * scale] for _ in range(m)]
+                pts.append(pts[0][:])
+                if max(abs(v) for p in pts for v in p) >= 2.0 ** 200:
+                    pts = [[v / 4 for v in p] for p in pts]
+                rings.append([[ec.to_exact(v) for v in p] for p in pts])
+            polys.append(rings)
+        out.append(dict(polys=polys, l=r.choice(["XY", "XYZ", "XYM", "XYZM"])))
+    return out
+
+
+def big_pipe(ctx, verdict, cases, name="measurex"):
+    """Numeric clause: Apalache decides MeasureBig!AreaOK on exact integers for the whole geometry and each polygon."""
+    import os
+    from props import exact_common as ec
+    from props import c18
+    obs = list(vlib.run_driver(ctx, "measurex", cases, for_tlc=False))
+    exprs, sigs = [], []
+    for c, o in zip(cases, obs):
+        if o["ev"] != "ok" or o["area"] == "panic" or "panic" in o["parts"]:
+            exprs.append("FALSE")
+            sigs.append("measure|numeric|panic")
+            continue
+        flat = [v for p in o["x"] for ring in p for q in ring for v in q]
+        ints, k = ec.scale_ints([ec.parse_exact(v) for v in flat])
+        pos, conj = 0, []
+
+        def poly_expr(rings_x, got):
+            nonlocal pos
+            coords, idx, i = [], [], 0
+            for ring in rings_x:
+                for j, _ in enumerate(ring):
+                    coords.append(ec.tla_pt(ints[pos:pos + 2]))
+                    pos += 2
+                    i += 1
+                    if j > 0:
+                        idx.append(i)
+            g = ec.parse_exact(got)
+            gi, gk = ec.scale_ints([g])
+            return coords, idx, gi[0], 1 << gk
+        all_coords, all_idx, off = [], [], 0
+        for pi, p in enumerate(o["x"]):
+            coords, idx, gn, gd = poly_expr(p, o["parts"][pi])
+            if idx:
+                conj.append("AreaOK(<<%s>>, <<%s>>, %s, %d, %d, %d)" % (", ".join(coords), ", ".join(map(str, idx)), ec.tla_int(gn), gd, 4 ** k, len(coords)))
+            all_idx += [i + off for i in idx]
+            all_coords += coords
+            off += len(coords)
+        g = ec.parse_exact(o["area"])
+        gi, gk = ec.scale_ints([g])
+        conj.append("AreaOK(<<%s>>, <<%s>>, %s, %d, %d, %d)" % (", ".join(all_coords), ", ".join(map(str, all_idx)), ec.tla_int(gi[0]), 1 << gk, 4 ** k, len(all_coords)))
+        exprs.append(" /\\ ".join(conj))
+        sigs.append("measure|numeric|area-outside-rounding-bound")
+    spec = open(os.path.join(ctx.specdir, "MeasureBig.tla")).read()
+    return c18.apalache_decimal(ctx, verdict, exprs, cases, sigs, name, spec, per_module=6 if ctx.quick else 20, extends="MeasureBig", modprefix="MeasObs")
+
+
+PIPES = {"measure": pipe, "measurex": big_pipe}
 
 
 def run(ctx, verdict):
@@ -21,7 +93,11 @@ def run(ctx, verdict):
     vlib.note_cases(ctx, cases, nontrivial=lambda c: c["v"] != [])
     ctx.coverage_extra["model_a"] = [dict(cfg=cfg, cases=len(cases), states=r["distinct"])]
     pipe(ctx, verdict, cases)
+    big = big_cases(ctx.seed, 48 if ctx.quick else 1200)
+    vlib.note_cases(ctx, big)
+    big_pipe(ctx, verdict, big)
+    ctx.coverage_extra["numeric_tier"] = dict(cases=len(big), checker="Apalache on MeasureBig!AreaOK (exact integers, fold over the edges)")
     ctx.assumptions += ["structure tier: every shape is assembled from a catalogue of rings / lines whose edges have "
                         "integer length and whose vertices are small integers, so Area and Length are exact in float64 "
                         "and compared exactly; a wrongly bridged or skipped part changes the result by a non-zero amount",
-                        "the rounding-error clause (ordinates up to 2^200) is not decided by this tier"]
+                        "numeric tier: seeded rings with arbitrary float64 ordinates up to 2^200, far from the origin, Area() of every polygon and of the whole within (n+8)*2^-52*sum|trapezoid terms|/2 (Apalache); the rounding clause for Length() is not decided (it needs square roots)"]
